@@ -29,8 +29,9 @@ def gen_case(seed, tier="quick"):
         n *= s
     dt = rng.choice(("f8", "f8", "f8", "f4", "i8", ">f8", "<f4", "i4"))
     cols = {}
+    hz_ = rng.random() < 0.2 and dt in ("f8", ">f8")     # special values: -0.0, denormals, nan, inf, +-pi, 1e200
     for g in gn:
-        vals = [C.value(rng, g) for _ in range(n)]
+        vals = [C.value(rng, g, hazard=(hz_ and rng.random() < 0.3)) for _ in range(n)]
         if dt in ("i8", "i4"):
             vals = [int(round(v)) or 1 for v in vals]
             if dt == "i8" and rng.random() < 0.3:
